@@ -464,6 +464,103 @@ pub fn enumerate_outputs(f: &Factory, schema: &Value, root: &Matcher, max_moves:
     b
 }
 
+/// character-level complement: every output over a tiny alphabet, strings with bodies of at most
+/// `max_body` characters, numbers of at most 3 characters; catches what no pool anticipates
+struct CharEnum<'a> {
+    schema: &'a Value,
+    byte_tok: Vec<Option<u32>>,
+    nodes: u64,
+    outputs: u64,
+    fed: u64,
+    cap: u64,
+    cap_hit: bool,
+    max_body: usize,
+    max_len: usize,
+    violations: Vec<(String, String, Vec<u8>)>,
+}
+
+impl<'a> CharEnum<'a> {
+    fn feed(&mut self, m: &Matcher, bytes: &[u8]) -> Option<Matcher> {
+        let mut c = m.clone();
+        self.fed += 1;
+        for b in bytes {
+            let t = self.byte_tok[*b as usize]?;
+            if c.is_stopped() {
+                return None;
+            }
+            let mask = c.compute_mask().ok()?;
+            if !mask.is_allowed(t) {
+                return None;
+            }
+            c.consume_token(t).ok()?;
+        }
+        Some(c)
+    }
+
+    /// state: in_str = inside a string literal, body = characters so far in it, num = length of
+    /// the number being written
+    fn dfs(&mut self, m: &Matcher, text: &mut Vec<u8>, in_str: bool, body: usize, num: usize) {
+        if self.nodes >= self.cap {
+            self.cap_hit = true;
+            return;
+        }
+        self.nodes += 1;
+        let mut mm = m.clone();
+        let stopped = mm.is_stopped();
+        if !in_str && ((stopped && mm.stop_reason().is_ok()) || (!stopped && mm.is_accepting().unwrap_or(false))) {
+            self.outputs += 1;
+            if let Err(reason) = check_output(self.schema, text) {
+                let class = classify(self.schema, text, &reason);
+                if self.violations.len() < 20 {
+                    self.violations.push((class, reason, text.clone()));
+                }
+            }
+        }
+        if stopped || text.len() >= self.max_len {
+            return;
+        }
+        let mut moves: Vec<(&[u8], bool, usize, usize)> = vec![]; // bytes, in_str after, body after, num after
+        if in_str {
+            moves.push((b"\"", false, 0, 0));
+            if body < self.max_body {
+                for u in [&b"a"[..], b"b", "é".as_bytes(), b"\\n", b"\\\"", b"\\u0061", b"\\u0001", b"\\\\", b"\\/", b"\x7f", b"1", b"-", b":", b" "] {
+                    moves.push((u, true, body + 1, 0));
+                }
+            }
+        } else {
+            for b in [&b"{"[..], b"}", b"[", b"]", b",", b":", b"true", b"false", b"null"] {
+                moves.push((b, false, 0, 0));
+            }
+            moves.push((b"\"", true, 0, 0));
+            if num < 3 {
+                for d in [&b"0"[..], b"1", b"5", b"-", b".", b"e"] {
+                    moves.push((d, false, 0, num + 1));
+                }
+            }
+        }
+        for (bytes, is, bd, nm) in moves {
+            if let Some(c) = self.feed(m, bytes) {
+                let l = text.len();
+                text.extend_from_slice(bytes);
+                self.dfs(&c, text, is, bd, nm);
+                text.truncate(l);
+                if self.cap_hit {
+                    return;
+                }
+            }
+        }
+    }
+}
+
+pub fn enumerate_chars(f: &Factory, schema: &Value, root: &Matcher, max_body: usize, max_len: usize, cap: u64) -> (u64, u64, u64, bool, Vec<(String, String, Vec<u8>)>) {
+    let trie = f.env.tok_trie();
+    let byte_tok: Vec<Option<u32>> = (0..=255u8).map(|b| if b == 0xFF { None } else { trie.token_id(&[b]) }).collect();
+    let mut e = CharEnum { schema, byte_tok, nodes: 0, outputs: 0, fed: 0, cap, cap_hit: false, max_body, max_len, violations: vec![] };
+    let mut text = vec![];
+    e.dfs(root, &mut text, false, 0, 0);
+    (e.nodes, e.outputs, e.fed, e.cap_hit, e.violations)
+}
+
 fn schemas(ctx: &Ctx) -> Vec<Value> {
     let mut v = jsongen::all_schemas(ctx.quick());
     for it in corpus::json_items() {
@@ -529,11 +626,32 @@ pub fn run(ctx: &Ctx) -> Coverage {
         if out.outputs > 3 {
             ctx.sample(json!({"schema": schema, "outputs": out.outputs, "nodes": out.nodes}));
         }
+        // character-level complement (compact JSON only, to keep the alphabet tiny)
+        let mut compact = schema.clone();
+        if compact.is_object() && compact.get("x-guidance").is_none() {
+            compact["x-guidance"] = json!({"whitespace_flexible": false});
+            if let Ok(root2) = f.try_matcher(&GrammarSpec::Json(compact.clone())) {
+                let (nodes, outputs, fed, capped, viols) = enumerate_chars(&f, &compact, &root2, ctx.tier.pick(2, 3), ctx.tier.pick(14, 20), ctx.tier.pick(15_000, 400_000));
+                ctx.states.fetch_add(nodes, Ordering::Relaxed);
+                ctx.transitions.fetch_add(fed, Ordering::Relaxed);
+                ctx.validated.fetch_add(outputs, Ordering::Relaxed);
+                ctx.count("char_level_outputs_validated", outputs);
+                ctx.count(if capped { "char_level_schemas_capped" } else { "char_level_schemas_complete" }, 1);
+                for (class, reason, text) in viols {
+                    ctx.violation(Violation {
+                        check: "output_invalid_char_level".into(),
+                        class: class.clone(),
+                        signature: format!("{}|{}|{}", class, compact, show(&text)),
+                        detail: json!({"kind": "json_output", "schema": compact, "output": show(&text), "output_hex": hex(&text), "reason": reason}),
+                    });
+                }
+            }
+        }
     });
     if ctx.get_count("outputs_validated") < 1000 {
         ctx.machinery_error("vacuous run: fewer than 1000 outputs enumerated");
     }
     Coverage::StateGraph {
-        rule: format!("for each of {} schemas (keyword templates + corpus): depth-first enumeration through the masks of every output with <= {max_moves} lexeme moves (iterative deepening; structural bytes, true/false/null, every string of a schema-derived pool incl. \\u-escaped spellings of declared names, prefixes, extensions, every length 0..maxLength+1, escapes, format boundary products; every number of a pool around each bound), <= {node_cap} nodes per schema; every complete output is parsed by a strict duplicate-preserving JSON parser and validated against the schema (formats asserted); states = DFS nodes, transitions = lexeme moves fed, traces = complete outputs validated", ss.len()),
+        rule: format!("for each of {} schemas (keyword templates + corpus): depth-first enumeration through the masks of every output with <= {max_moves} lexeme moves (iterative deepening; structural bytes, true/false/null, every string of a schema-derived pool incl. \\u-escaped spellings of declared names, prefixes, extensions, every length 0..maxLength+1, escapes, format boundary products; every number of a pool around each bound), <= {node_cap} nodes per schema; every complete output is parsed by a strict duplicate-preserving JSON parser and validated against the schema (formats asserted); plus a character-level complement per schema (compact JSON; every output over the alphabet a b é \\n \\\" \\u0061 \\u0001 \\\\ \\/ DEL 1 - : space inside strings with bodies <= {} characters, numbers <= 3 characters over 0 1 5 - . e, structural bytes and keywords, <= {} bytes, node cap {} — schemas that hit the cap are counted in char_level_schemas_capped and are covered only below it); states = DFS nodes, transitions = lexeme moves fed, traces = complete outputs validated", ss.len(), ctx.tier.pick(2, 3), ctx.tier.pick(14, 20), ctx.tier.pick(15_000, 400_000)),
     }
 }
